@@ -160,7 +160,7 @@ def cases():
 
 
 def search(limit=None):
-    hit = hidden_procedure_namelist() or module_procedure_body() or metadata_key_case() or hidden_constructor() or display_spellings() or __import__("bounded.c04", fromlist=["x"]).multi_name_binding_case()
+    hit = hidden_procedure_namelist() or module_procedure_body() or metadata_key_case() or hidden_constructor() or display_spellings() or __import__("bounded.c04", fromlist=["x"]).multi_name_binding_case() or __import__("bounded.c04", fromlist=["x"]).protected_and_public_case()
     if hit:
         return hit
     n = 0
